@@ -27,7 +27,8 @@ CONSTANTS
   Dials,      \* dial ids
   Hosts,      \* host names
   AddrsOf,    \* [Hosts -> Seq({"ok","refuse","hang"})]  endpoint kind of every resolved address
-  ResolveOf   \* [Hosts -> {"ok","error","hang"}]        behaviour of the resolver for the host
+  ResolveOf   \* [Hosts -> {"ok","error","hang","direct"}] behaviour of the resolver for the host;
+              \* "direct": no resolution at all (TCPDialer.DisableDNSResolution, one literal address)
 
 VARIABLES
   pc,       \* [Dials -> {"new","try","slot","holding","dialing","dialed","release","done"}]
@@ -67,6 +68,8 @@ Resolve(d) ==
                  /\ idx' = [idx EXCEPT ![d] = k] /\ used' = [used EXCEPT ![h] = @ \cup {k}]
             /\ rot' = [rot EXCEPT ![h] = @ + 1]
             /\ pc' = [pc EXCEPT ![d] = "try"] /\ UNCHANGED result
+       [] ResolveOf[h] = "direct" ->      \* DisableDNSResolution: the address is dialled as it is
+            pc' = [pc EXCEPT ![d] = "try"] /\ UNCHANGED <<result, rot, idx, used>>
        [] ResolveOf[h] = "error" -> Finish(d, "resolveerr") /\ UNCHANGED <<rot, idx, used>>
        [] ResolveOf[h] = "hang" -> expired[d] /\ Finish(d, "resolveerr") /\ UNCHANGED <<rot, idx, used>>
   /\ UNCHANGED <<host, tried, order, lastErr, expired, slots>>
